@@ -27,7 +27,7 @@ def _many(items):
 SUBJECTS = {}
 SCOPE_TEXT = ("copies of 17 pure-Python standard-library modules (bisect, heapq, textwrap, colorsys, fnmatch, shlex, posixpath, difflib, "
               "string, statistics, ipaddress, urllib.parse, graphlib, copy, pprint, fractions, calendar; C accelerators removed, a few "
-              "wrappers appended) with ~1900 fixed calls")
+              "wrappers appended) with ~600 fixed calls")
 
 
 def _corpus_worker(job):
